@@ -552,7 +552,17 @@ class Symex:
                 self.assign(e, x)
         elif isinstance(t, ast.Subscript):
             obj = self.ev(t.value)
-            k = self.ev(t.slice) if not isinstance(t.slice, ast.Slice) else self.unsupported(t, "slice store")
+            if isinstance(t.slice, ast.Slice):
+                # ``lst[a:b] = values`` on a concrete list with concrete bounds
+                lo, hi, st = (self.ev(x) if x is not None else None for x in (t.slice.lower, t.slice.upper, t.slice.step))
+                if isinstance(obj, list) and not any(isinstance(x, T) for x in (lo, hi, st)):
+                    try:
+                        obj[lo:hi:st] = list(self.iterate(v, t))
+                    except (TypeError, ValueError):
+                        self.unsupported(t, "slice store")
+                    return
+                self.unsupported(t, "slice store")
+            k = self.ev(t.slice)
             if isinstance(obj, (dict, list)):
                 try:
                     obj[k] = v
@@ -774,6 +784,10 @@ class Symex:
             return any(e is x for e in coll)
         if isinstance(coll, Obj):
             coll = coll.term
+        if isinstance(x, Obj) and isinstance(coll, (list, tuple, set, frozenset, dict)) and coll and \
+                all(isinstance(e, Obj) for e in coll):
+            # an abstract record among abstract records: decided by identity, as ``==`` between two records is
+            return any(e is x for e in coll)
         if isinstance(x, Obj):
             x = x.term
         if isinstance(coll, T):
